@@ -22,7 +22,7 @@ from fractions import Fraction
 from harness import core
 
 MANIFEST_ENTRY = {
-    "text": "Lean theorems over an executable model of the summary aggregation: C14_partial (for every program list without the two reserved names and every world the real code accepts, every simulation count, both retention settings and every enumeration order of every directory scan, the run completes and both summary tables are a permutation of one row per (program, simulation) computed from that pair's own files), guard_exact / C14_rejected (the run raises exactly when some pair wrote a file the statistics reject; for the mapper's statistics an estimate file without data rows), runAll_closed_form, once_each, own_files_only, perm_invariant, retention_invariant, estimate_floor, estJoin_perm_invariant, cost_ratios, cost_once_each, concrete_mit_cell / concrete_cost_cell / cost_ratios_concrete (the two cost columns are the pair's own sum of mitigated emissions and sum of daily cost), batch_sizes_sum, batch_sizes_le_five, batch_sims_eq_range, yearly_shares_complete / window_complete / C14_yearly_partial / C14_yearly (the yearly shares of a frame add up to its values, leap years and records without end date included), year_length / feb_length (calendar facts of the model's ordinals), genAll_frame / legacy_rows_preserved (rows of earlier batches are carried over unchanged and new rows do not depend on them), contribution_measured / contribution_same_type / contribution_fallback / fallback_is_not_mean_of_type_means (extrapolation of the estimate to unmeasured sites: own type's measured average, else the average over all measured sites, which is not the mean of the type means), runInFolder_eq_runAll / C14_history / uncleared_folder_keeps_stale_rows (run-history level: initialize_outputs clears the folder, so after any history of runs from any prior folder state the tables hold exactly the last run's pairs; without the clean-up every old row survives). C14_counterexample, C14_counterexample_logs, C14_counterexample_zero_rows refute the unrestricted statement (program named kept..., program named Logs, a file without rows); C14_yearly proves share completeness for closed and open-ended records of the repaired code (e320a70). The model is tied to the real SimulationManager batch loops (debug and multiprocessing), SummaryOutputManager, summary_outputs, summary_output_helpers, summary_output_mapper and batch_simulations by running them over generated program folders with os.scandir permuted independently per call and comparing both summary files and the folder contents after every batch and the cost summary at the end with the compiled model driven by the recorded listings (single runs through the real initialize_outputs and histories of two or three runs into the same output folder, the model keeping its folder state), and with the theorem-level run function on the same world; a direct oracle recomputes every statistic from the pair's own generated data and re-runs every world under a second enumeration order.",
+    "text": "Lean theorems over an executable model of the summary aggregation: C14_partial (for every program list without the two reserved names and every world the real code accepts, every simulation count, both retention settings and every enumeration order of every directory scan, the run completes and both summary tables are a permutation of one row per (program, simulation) computed from that pair's own files), guard_exact / C14_rejected (the run raises exactly when some pair wrote a file the statistics reject; for the mapper's statistics an estimate file without data rows), runAll_closed_form, once_each, own_files_only, perm_invariant, retention_invariant, estimate_floor, estJoin_perm_invariant, cost_ratios, cost_once_each, concrete_mit_cell / concrete_cost_cell / cost_ratios_concrete (the two cost columns are the pair's own sum of mitigated emissions and sum of daily cost), batch_sizes_sum, batch_sizes_le_five, batch_sims_eq_range, yearly_shares_complete / window_complete / C14_yearly_partial / C14_yearly (the yearly shares of a frame add up to its values, leap years and records without end date included), year_length / feb_length (calendar facts of the model's ordinals), genAll_frame / legacy_rows_preserved (rows of earlier batches are carried over unchanged and new rows do not depend on them), contribution_measured / contribution_same_type / contribution_fallback / fallback_is_not_mean_of_type_means (extrapolation of the estimate to unmeasured sites: own type's measured average, else the average over all measured sites, which is not the mean of the type means), mem_yearsOf / C14_years_complete / planner_years_lose_the_last_year (the summaries are built for every calendar year of the period, over which the yearly cells add up to the values; the planner's whole-year list loses the last year), runInFolder_eq_runAll / C14_history / uncleared_folder_keeps_stale_rows (run-history level: initialize_outputs clears the folder, so after any history of runs from any prior folder state the tables hold exactly the last run's pairs; without the clean-up every old row survives). C14_counterexample, C14_counterexample_logs, C14_counterexample_zero_rows refute the unrestricted statement (program named kept..., program named Logs, a file without rows); C14_yearly proves share completeness for closed and open-ended records of the repaired code (e320a70). The model is tied to the real SimulationManager batch loops (debug and multiprocessing), SummaryOutputManager, summary_outputs, summary_output_helpers, summary_output_mapper and batch_simulations by running them over generated program folders with os.scandir permuted independently per call and comparing both summary files and the folder contents after every batch and the cost summary at the end with the compiled model driven by the recorded listings (single runs through the real initialize_outputs and histories of two or three runs into the same output folder, the model keeping its folder state), and with the theorem-level run function on the same world; a direct oracle recomputes every statistic from the pair's own generated data and re-runs every world under a second enumeration order.",
     "design_ref": "DESIGN.md 5.14",
     "note": "trusted: Lean kernel + propext/Classical.choice/Quot.sound; the hand-written model (tied by sampled correspondence, not proof); harness adapter and generators; pandas read_csv/to_csv, merge, groupby and NumPy's percentile as reference semantics (the percentile is an uninterpreted function of the column in the model and is evaluated with NumPy on the column the model names); numbers restricted to a grid on which float arithmetic is exact (CSV float round-trip drift of non-dyadic values is outside the model); row order inside a summary file and the Summary Files switches are not modelled (one world per switch setting is compared per run); a rejected file stops the real run inside a call while the model only flags the call",
     "technique": "Lean 4 closed-form/permutation proofs over a directory-listing model + differential correspondence with the real aggregation code under permuted os.scandir + direct recomputation oracle",
@@ -986,7 +986,7 @@ def run(ctx):
                 "Feb 29 / Mar 1, New-Year straddles and whole-(leap-)year covers on purpose; per-simulation files are written "
                 "with float formatting, extra columns and shuffled column order; worlds with equal program names but other "
                 "years / prices / contents run back to back in both orders and must repeat exactly; histories of 2-3 runs into "
-                "estimate files with up to five site types, unequal measured counts, types without measured sites; the same output folder through the real initialize_outputs (other n / program sets / retention, junk in "
+                "every world has a simulated period (whole years, end earlier in the calendar than the start, exactly one year, leap-day start, days around New Year) from which the REAL calc_simulation_years computes the year list; estimate files with up to five site types, unequal measured counts, types without measured sites; the same output folder through the real initialize_outputs (other n / program sets / retention, junk in "
                 "the folder before the first run) are judged after every run; evaluations = worlds + unit-level protocol lines (file "
                 "names against the real regexes, batch_simulations 0..59 + random, calendar days 1999-12-25..2031-01-09)")
     MULTI_TYPE_P[0] = ctx.pick(0.25, 0.5)
